@@ -45,3 +45,8 @@ ACCESS_POLICY = {'class': 'mqtt.client.base.MQTTBaseProtocol', 'key': 'addr', 'p
                  'tagged': ['mqtt.pdu.PUBLISH', 'mqtt.pdu.PUBREL', 'mqtt.pdu.SUBSCRIBE', 'mqtt.pdu.UNSUBSCRIBE'],
                  'tables': ['queuePublishTx', 'windowPublish', 'windowPubRelease', 'windowPubRx', 'windowSubscribe',
                             'windowUnsubscribe']}
+
+
+# entry-state heap well-formedness assumed by the VC generator for these fields: an object alive at the entry of a
+# function refers through them only to objects alive at entry (timers cannot point at requests / protocols not yet built)
+HEAP_WF_FIELDS = ['t_arg', 't_owner']
